@@ -41,6 +41,8 @@ def cases(tier, seed):
                         second_round=R.choice(["same_builder", "restored_builder"]), mods=R.sample(["remove_extreme", "replace_older", "update"], R.choice([0, 1, 2]))))
     for i in range(3 if tier == "quick" else 30):
         out.append(dict(writer="tile_fits", depth=0, mode="F32", par=R.choice([1, 2]), via="tile_fits", seed=R.randrange(1 << 30), fill=1.0, tan=(i % 3 != 2)))
+    for i in range(4 if tier == "quick" else 40):
+        out.append(dict(writer="write_image", depth=R.choice([2, 3]), mode=R.choice(["F32", "F64"]), par=[1, 2, 4, 1][i % 4], via="cascade_images", seed=R.randrange(1 << 30), fill=0.6, io_read_fault=True))
     # pyramids of depth 0: an image of at most 256x256 pixels, whose only tile is leaf and root at once
     for i in range(4 if tier == "quick" else 30):
         out.append(dict(writer="study", depth=0, mode=R.choice(["F32", "F64"]), par=R.choice([1, 2]), via="builder", seed=R.randrange(1 << 30), fill=1.0))
@@ -200,6 +202,42 @@ def run_case(spec, workdir):
         from toasty.merge import averaging_merger, cascade_images
 
         fn = lambda: cascade_images(pio, depth, averaging_merger, parallel=par)
+    io_rec = None
+    if spec.get("io_read_fault") and tr:
+        # one leaf cannot be read for a while (EIO / ESTALE on a flaky file system, several attempts in a row): the cascade
+        # must report it - a pyramid whose ranges silently lack that leaf is the violation
+        import errno
+
+        from vlib import sched
+
+        lv = sorted(q for q in tr if q[0] == depth)
+        fl = lv[spec["seed"] % len(lv)]
+        rel = tilegen.tile_relpath(fl, "fits")
+        io_rec = sched.failpoint("image.py", "load_path", lambda: OSError(R.choice([errno.EIO, errno.ESTALE, errno.EAGAIN]), "injected read error"), count=6,
+                                 when=lambda L: str(L.get("path")).endswith(rel), on_fire=lambda: evlog.ev("fault_injected", pos=fl))
+    if io_rec is not None:
+        from vlib import sched
+
+        try:
+            if par > 1:
+                outcome, info = models.run_stage(fn, log, "walk", watchdog=200)
+            else:
+                evlog.ev("stage_call")
+                try:
+                    fn()
+                    outcome = "returned"
+                except (OSError, RuntimeError):
+                    outcome = "raised"
+        finally:
+            sched.clear_failpoints()
+        fired = any(r["k"] == "fault_injected" for r in evlog.read(log))
+        evlog.close_log()
+        if outcome == "watchdog" or not fired:
+            return dict(status="inconclusive", detail="read fault not reached / watchdog (%s)" % outcome)
+        res = dict(counters=dict(pyramids=1, read_faults_injected=1, read_faults_reported=int(outcome == "raised")), nontrivial=True, sample=dict(spec=spec, failing_leaf=fl, outcome=outcome))
+        if outcome != "raised":
+            res.update(status="violation", key="data-range:read-error-swallowed", detail="leaf %s could not be read (6 attempts failed with an I/O error), yet the cascade ended as '%s': the ranges above it cannot include it" % (fl, outcome))
+        return res
     if par > 1:
         outcome, info = models.run_stage(fn, log, "walk", watchdog=200, hostile=dict(seed=spec["seed"], p=0.03, files=("pyramid.py", "par_util.py", "merge.py"), lo=0.001, hi=0.06, budget=1.0) if spec["seed"] % 4 == 0 else None)
         if outcome == "returned" and spec["via"] == "builder" and (0, 0, 0) in tr:
